@@ -263,6 +263,22 @@ class Table:
     def S(self, x, k=0):
         return self.spline(np.asarray(x, dtype=float), k)
 
+    def end_piece(self, edge, y, k=0):
+        """k-th derivative of the first (edge = rmin) or last polynomial piece, continued over all y."""
+        j = 0 if edge == self.rmin else -1
+        c = self.spline.c[:, j]                      # (4, ...) coefficients, highest power first
+        x0 = self.spline.x[0] if j == 0 else self.spline.x[-2]
+        t = np.asarray(y, dtype=float) - x0
+        t = t.reshape(t.shape + (1,) * (c.ndim - 1))
+        out = 0.0
+        for m in range(4):
+            pw = 3 - m
+            if pw < k:
+                continue
+            fac = math.factorial(pw) / math.factorial(pw - k)
+            out = out + fac * c[m] * t ** (pw - k)
+        return out + np.zeros(t.shape[:np.ndim(y)] + c.shape[1:])
+
 
 def lower_overrun(rmin, new_min, p_min):
     """Would np.arange(newMin, rangeMin, |rangeMin-newMin|/pointsMin) produce pointsMin+1 points?
@@ -678,7 +694,8 @@ class Runner:
             if k == 0:
                 return np.broadcast_to(c, y.shape + c.shape).copy()
             return np.zeros(y.shape + c.shape)
-        return np.asarray(tab.S(y, k), dtype=float)  # FUNCTION
+        # FUNCTION: the end piece of the spline continued as a polynomial (= CubicSpline's extrapolation)
+        return np.asarray(tab.end_piece(edge, y, k), dtype=float)
 
     def _fd_tol(self, gvals, m_hi, n, dx):
         cn = 1.5 if n == 1 else 64.0 / 12.0
@@ -727,16 +744,16 @@ class Runner:
                     t = self._fd_tol(gv, mh, n, dx)
                     if edge is not None and abs(xi - edge) < TOLERANCES["near_edge_halfwidth_dx"] * dx:
                         near[idx] = True
-                        ed = np.array(edge)
-                        jump = [np.abs(np.asarray(self._g(tab, mode, edge, ed, k), dtype=float)
-                                       - np.asarray(tab.S(ed, k), dtype=float)) for k in range(4)]
-                        if n == 1:
-                            kink = 1.5 * (jump[0] / dx + 2 * jump[1] + 2 * jump[2] * dx + 4 / 3 * jump[3] * dx ** 2)
-                        else:
-                            kink = 64 / 12 * (jump[0] / dx ** 2 + 2 * jump[1] / dx + 2 * jump[2]
-                                              + 4 / 3 * jump[3] * dx)
-                        t = t + 1.2 * kink + TOLERANCES["fd_factor"] * TOLERANCES["fd_eval_eps"] * tab.scale \
-                            * (1.5 / dx if n == 1 else 64 / 12 / dx ** 2)
+                        # stencil points that fall inside the table see the spline, not g: the finite
+                        # difference changes by at most sum|c_k| max|S-g| / dx^n over those points
+                        inside_pts = ys[(ys >= tab.rmin) & (ys <= tab.rmax)]
+                        csum = 1.5 if n == 1 else 64.0 / 12.0
+                        if inside_pts.size:
+                            dev = np.max(np.abs(np.asarray(tab.S(inside_pts), dtype=float)
+                                                - np.asarray(self._g(tab, mode, edge, inside_pts, 0), dtype=float)),
+                                         axis=0)
+                            t = t + 1.2 * csum * dev / dx ** n
+                        t = t + TOLERANCES["fd_factor"] * TOLERANCES["fd_eval_eps"] * tab.scale * csum / dx ** n
                     t_best = t if t_best is None else np.maximum(t_best, t)
                 exp[idx] = e
                 tol[idx] = t_best + 1e-12 * (1.0 + np.abs(e))
@@ -781,12 +798,19 @@ class Runner:
         return [] if (self.R == 1 and had_nan) else valid.tolist()
 
     def _sim_fires(self, batches):
-        """Predicted classes of the adaptive updates of this step (None if the counters cannot be observed)."""
+        """Predicted classes of the adaptive updates of this step (None if the counters cannot be observed).
+
+        Both validity conventions are simulated (all-or-nothing for scalar batches as in the unchanged tree,
+        and point by point as the property states); the union of the predicted updates is returned."""
         if self._peek is None or self._peek_count is None:
             return None
         old = self._tab_before if self._had_before else None
         rng = (old.rmin, old.rmax) if old is not None else None
-        return simulate_updates(self._peek_count, self._peek, batches, rng, self.T, self.N0, self._tree_valid)
+        out = simulate_updates(self._peek_count, self._peek, batches, rng, self.T, self.N0, self._tree_valid)
+        if self.R == 1 and self.nan_below is not None:
+            out = out + simulate_updates(self._peek_count, self._peek, batches, rng, self.T, self.N0,
+                                         lambda b: self._valid_unique(b)[0].tolist())
+        return out
 
     def _deriv_sim_batches(self, tab, xa, n, dx, below, above, direct):
         """Stencil batches a derivative call schedules in the unchanged tree (f is called twice)."""
@@ -819,6 +843,7 @@ class Runner:
     def op_evaluate(self, s):
         x = build_x(s)
         xa = np.asarray(x, dtype=float)
+        self.last_eval = (s["shape"], s.get("dims"), list(s["x"]))
         interp = bool(s.get("interp", True))
         tab0 = self.tab if self.has_table() else None
         below, above, direct = self._masks(tab0, xa, interp)
@@ -852,14 +877,14 @@ class Runner:
                           f"adaptive update raised {type(exc).__name__}: {exc}")
                 return
             sub = "out-of-range-exception" if has_out else "inside-exception"
-            self.fail(sub, f"call=evaluate R={self.Rc} pair={pair} input={shape}-{region} "
-                           f"exc={type(exc).__name__}",
-                      f"evaluate raised {type(exc).__name__}: {exc}", x=s["x"])
+            self.fail(sub, f"call=evaluate R={self.Rc} pair={pair} exc={type(exc).__name__}",
+                      f"evaluate raised {type(exc).__name__}: {exc}", x=s["x"], input=f"{shape}-{region}")
             return
         if want_err:
             self.chk("eval-error-mode")
-            self.fail("eval-error-mode", f"call=evaluate R={self.Rc} pair={pair} input={shape}-{region}",
-                      "no ValueError although an entry lies on a side in ERROR mode", x=s["x"])
+            self.fail("eval-error-mode", f"call=evaluate R={self.Rc} pair={pair}",
+                      "no ValueError although an entry lies on a side in ERROR mode", x=s["x"],
+                      input=f"{shape}-{region}")
             return
         fired = self._post_step("evaluate", may_fire_op=True)
         if self.dead:
@@ -868,7 +893,7 @@ class Runner:
         self.chk("eval-shape")
         want_shape = xa.shape + ((self.R,) if self.R > 1 else ())
         if got.shape != want_shape:
-            self.fail("eval-shape", f"R={self.Rc} input={shape}-{region}",
+            self.fail("eval-shape", f"R={self.Rc} input={shape}",
                       f"result shape {got.shape}, expected {want_shape}")
             return
         exp, tol, kind = self._expect_eval(tab0, xa, interp)
@@ -888,12 +913,12 @@ class Runner:
             xj = float(xa[m][j])
             if k >= 2:
                 side, mode = ("lower", self.lo) if k == 2 else ("upper", self.hi)
-                cls = f"call=evaluate R={self.Rc} side={side} mode={mode} input={shape}-{region}"
+                cls = f"call=evaluate R={self.Rc} side={side} mode={mode}"
             else:
-                cls = f"call=evaluate R={self.Rc} input={shape}-{region}"
+                cls = f"call=evaluate R={self.Rc}"
             self.fail(sub, cls,
                       f"at x={xj!r}: got {np.asarray(got[m][j]).tolist()!r}, expected "
-                      f"{np.asarray(exp[m][j]).tolist()!r}", pair=pair)
+                      f"{np.asarray(exp[m][j]).tolist()!r}", pair=pair, input=f"{shape}-{region}")
             return
         # agreement with f inside the table
         m = kind == 1
@@ -903,7 +928,7 @@ class Runner:
             err = np.abs(got[m] - f_exact(self.init, xa[m]))
             self.track("eval_accuracy_err_over_bound", np.max(err / bound))
             if not np.all(err <= bound):
-                self.fail("eval-accuracy", f"R={self.Rc} input={shape}-{region}",
+                self.fail("eval-accuracy", f"R={self.Rc}",
                           f"interpolated value differs from f by {float(np.max(err)):.3e} "
                           f"(bound {np.max(bound):.3e})")
 
@@ -965,14 +990,17 @@ class Runner:
                           f"adaptive update raised {type(exc).__name__}: {exc}")
                 return
             sub = "out-of-range-exception" if has_out else "inside-exception"
-            self.fail(sub, f"call=derivative R={self.Rc} pair={pair} input={shape}-{region} "
-                           f"exc={type(exc).__name__}",
-                      f"derivative(order={n}) raised {type(exc).__name__}: {exc}", x=s["x"])
+            icls = "mixed" if region == "mixed" else ("2d-out" if (shape == "2d" and has_out) else
+                                                      ("out" if has_out else region))
+            self.fail(sub, f"call=derivative R={self.Rc} pair={pair} input={icls} exc={type(exc).__name__}",
+                      f"derivative(order={n}) raised {type(exc).__name__}: {exc}", x=s["x"],
+                      input=f"{shape}-{region}")
             return
         if want_err:
             self.chk("deriv-error-mode")
-            self.fail("deriv-error-mode", f"call=derivative R={self.Rc} pair={pair} input={shape}-{region}",
-                      "no ValueError although an entry lies on a side in ERROR mode", x=s["x"])
+            self.fail("deriv-error-mode", f"call=derivative R={self.Rc} pair={pair}",
+                      "no ValueError although an entry lies on a side in ERROR mode", x=s["x"],
+                      input=f"{shape}-{region}")
             return
         fired = self._post_step("derivative", may_fire_op=True)
         if self.dead:
@@ -981,7 +1009,7 @@ class Runner:
         self.chk("deriv-shape")
         want_shape = xa.shape + ((self.R,) if self.R > 1 else ())
         if got.shape != want_shape:
-            self.fail("deriv-shape", f"R={self.Rc} input={shape}-{region}",
+            self.fail("deriv-shape", f"R={self.Rc} input={shape}",
                       f"result shape {got.shape}, expected {want_shape}")
             return
         ok = self._close(got, exp, tol)
@@ -1012,14 +1040,13 @@ class Runner:
             if sub == "out-of-range-value":
                 side, mode = ("lower", self.lo) if below[idx] else ("upper", self.hi)
                 nr = "near" if near[idx] else "far"
-                cls = (f"call=derivative R={self.Rc} side={side} mode={mode} input={shape}-{region} "
-                       f"dist={nr}")
+                cls = f"call=derivative R={self.Rc} side={side} mode={mode} dist={nr}"
             else:
-                cls = f"call=derivative R={self.Rc} order={n} input={shape}-{region}"
+                cls = f"call=derivative R={self.Rc} order={n}"
             self.fail(sub, cls,
                       f"order {n} at x={xj!r}: got {np.asarray(got[idx]).tolist()!r}, expected "
                       f"{np.asarray(exp[idx]).tolist()!r} (tolerance {np.asarray(tol[idx]).tolist()!r})",
-                      pair=pair, dx=dxs)
+                      pair=pair, dx=dxs, input=f"{shape}-{region}")
             return
 
     # -- table-changing steps -----------------------------------------------------------
@@ -1478,6 +1505,9 @@ def draw_evaluate(draw, r, region=None, burst=False):
         region = draw(st.sampled_from(sides + (["bothout"] if len(sides) == 2 else [])))
         interp = True
     xs = _points(draw, r, region, count)
+    last = getattr(r, "last_eval", None)
+    if last is not None and not burst and draw(st.sampled_from([False, False, False, True])):
+        shape, dims, xs = last[0], last[1], list(last[2])  # the same call again (a natural usage pattern)
     avoided = []
     bad = None
     for attempt in range(3):
